@@ -203,6 +203,9 @@ func cmdCheck(args []string) int {
 		if !vcGood(vc) {
 			o.OK = false
 			o.Reason = fmt.Sprintf("path %q: solver answer %s (%s)", vc.Path, vc.Status, vc.Solver)
+			if vc.Kind == "effect" {
+				o.Reason = "static effect clause: " + vc.Goal
+			}
 		}
 	}
 	// canaries: one live return path is enough
